@@ -288,6 +288,77 @@ Proof.
 Qed.
 Print Assumptions C01_tool_whole_rs.
 
+(* ---- correction restricted with -e/--errors_file (Select.v): the listed files, and only they ----
+   (a) an empty list restricts nothing; (b) on ANY ecc file, a restricted run writes output for listed paths only;
+   (c) header tool, generated ecc file, every file damaged within capacity: the restricted run counts the listed entries only,
+       repairs every listed file that is damaged, writes nothing else and exits 0. *)
+From PFF Require Select Proofs.SelectP.
+
+Theorem C01_errors_file_empty_is_no_restriction :
+  forall marker delim ignore_size look intra blocksH window blocksW db,
+  Select.run_h_sel marker delim ignore_size look intra [] blocksH db = Stream.run_h marker delim ignore_size look intra blocksH db /\
+  Select.run_w_sel marker delim ignore_size look intra [] window blocksW db = Stream.run_w marker delim ignore_size look intra window blocksW db.
+Proof.
+  intros. split; [apply SelectP.sel_inactive_h|apply SelectP.sel_inactive_w].
+Qed.
+Print Assumptions C01_errors_file_empty_is_no_restriction.
+
+Theorem C01_errors_file_writes_only_listed :
+  forall marker delim ignore_size look intra blocksH window blocksW L, L <> [] -> forall db c outs ex,
+  (Select.run_h_sel marker delim ignore_size look intra L blocksH db = Stream.Done c outs ex \/
+   Select.run_w_sel marker delim ignore_size look intra L window blocksW db = Stream.Done c outs ex) ->
+  forall p b, In (p, b) outs -> Select.listed L p = true.
+Proof.
+  intros marker delim ignore_size look intra blocksH window blocksW L HL db c outs ex [H|H] p b Hin.
+  - exact (SelectP.sel_writes_only_listed_h marker delim ignore_size look intra blocksH L HL db c outs ex H p b Hin).
+  - exact (SelectP.sel_writes_only_listed_w marker delim ignore_size look intra window blocksW L HL db c outs ex H p b Hin).
+Qed.
+Print Assumptions C01_errors_file_writes_only_listed.
+
+Theorem C01_errors_file_header_rs :
+  forall (algo : N) (mb : nat), mb <= 255 -> forall hash hlen, (forall m, length (hash m) = hlen) ->
+  forall bdec (o : option byte) fast ik ies, 1 <= ik -> ik + ies <= 255 -> forall idec,
+  PipelineP.dec_complete_hyp (option byte) (pchk algo mb) bdec (penc algo mb) o (pcap mb) (pwf mb) ->
+  forall ms hdr, 1 <= ms <= mb -> 1 <= hlen + (mb - ms) ->
+  let intra := C03Inst.intra_h algo ik ies idec in
+  let fenc := C03Inst.fenc_h algo ik ies in
+  let track := C03Inst.track_h algo mb hash ms hdr in
+  let blocks := C03Inst.blocksH_pipe algo mb hash hlen bdec o fast ms hdr in
+  forall marker delim ignore_size look preamble (T : list (list byte * list byte)) dmg want L,
+  L <> [] -> marker <> [] ->
+  StreamP.clean_pieces marker (preamble :: map (Stream.gen_entry delim fenc track) T) ->
+  (forall f, In f T ->
+     Stream.prefixb delim (fst f ++ delim) = false /\ StreamP.clean_mid delim (fst f) /\ StreamP.clean_mid delim (StreamP.size_of f) /\
+     StreamP.clean_mid delim (fenc (fst f)) /\ StreamP.clean_mid delim (fenc (StreamP.size_of f))) ->
+  (forall f, In f T -> (N.of_nat (length (snd f)) < 10 ^ 4300)%N) ->
+  (forall f, In f T -> Stream.has_nul (fst f) = false) ->
+  NoDup (map fst T) ->
+  (forall f, In f T -> look (fst f) = Some (dmg f)) ->
+  (forall f, In f T -> C01Inst.found_h algo mb hash o ms hdr (snd f) (dmg f) (want f)) ->
+  let Tl := filter (fun f => Select.listed L (fst f)) T in
+  exists outs k,
+    Select.run_h_sel marker delim ignore_size look intra L blocks (Stream.generate marker delim fenc track preamble T)
+      = Stream.Done (Stream.mkC (length Tl) k k 0 0) outs 0 /\ k <= length Tl /\
+    (forall p b, In (p, b) outs -> exists f, In f T /\ Select.listed L (fst f) = true /\ p = fst f /\ b = want f) /\
+    (forall f, In f T -> Select.listed L (fst f) = true -> dmg f <> want f -> In (fst f, want f) outs).
+Proof.
+  intros algo mb Hmb hash hlen HL bdec o fast ik ies K1 K2 idec DC ms hdr MS TP intra fenc track blocks
+         marker delim ignore_size look preamble T dmg want L HLn Hm U1 U2 SZ NN ND LK FH Tl.
+  destruct (C01Inst.sel_repair_header algo mb Hmb hash hlen HL bdec o fast ik ies K1 K2 idec DC ms hdr MS TP
+              marker delim ignore_size look preamble T dmg want L HLn Hm U1 U2 SZ NN ND LK FH) as (rs & F & E).
+  destruct (C01Inst.rel_summary (SelectP.Tsel T L) want _ rs _ F E) as (outs & k & E' & Hk & O & I).
+  exists outs, k. split; [exact E'|]. split; [exact Hk|]. split.
+  - intros p b H. destruct (O p b H) as (f & Hf & E1 & E2). unfold SelectP.Tsel in Hf. apply filter_In in Hf as [Hf1 Hf2].
+    exists f. auto.
+  - intros f Hf Hl Hd. apply I; [|exact Hd]. unfold SelectP.Tsel. apply filter_In. split; assumption.
+Qed.
+Print Assumptions C01_errors_file_header_rs.
+
+(* non-vacuity of the restriction: a two-name list, one path in it, one not *)
+Example C01_listed_example :
+  Select.listed [[x61]; [x62; x63]] [x62; x63] = true /\ Select.listed [[x61]; [x62; x63]] [x62] = false /\ Select.active [[x61]] = true.
+Proof. vm_compute. repeat split. Qed.
+
 (* Non-vacuity of the per-file premise `found_h` (the decoder hypothesis aside): codec 3, blocks of 6 + 4 parity, header 8, a toy
    4-byte hash; a 10-byte file found with byte 1 changed: two blocks, the first with one wrong symbol (capacity 2). *)
 Definition ex_hash (m : list byte) : list byte := firstn 4 (m ++ repeat x00 4).
